@@ -10,6 +10,8 @@
   not run backwards between two steps of one coroutine.
 -/
 import Resonate.Proofs.NoPanic
+import Resonate.Proofs.Kernel
+import Resonate.Model.Env
 namespace Resonate.C13
 open Coro SqlSpec
 
@@ -83,6 +85,104 @@ theorem no_panic_step (d : Dialect) (lo : Db) (now : Time) (subs : List Subm) (k
     intro s hs
     rw [hs] at this
     cases this
+
+/-! ### the whole server: no run of the kernel ever reaches an assertion
+
+  The two theorems above are about one coroutine fed with answering completions.  Proofs/Kernel.lean shows that the
+  kernel (`Sys.step`: ticks, completion delivery, store batches with injected failures, router / sender completions,
+  shutdown, crashes) feeds every coroutine exactly such completions, on databases whose keys are unique
+  (Proofs/KeysInv.lean, preserved by every command the coroutines emit: Proofs/AllYieldsK.lean), at clocks that do not
+  step back.  Hence, for EVERY run that respects `RunOkV`, no assertion event is ever emitted — whatever the workload,
+  the interleaving and batching of store transactions, the queue / batch / pool sizes, the injected failures and the
+  crash points. -/
+
+theorem bgOk (d : Dialect) (env : Env) : BgOk d env := fun k t0 lo now h => background_never_panics d env k t0 lo now h
+theorem reqOk (d : Dialect) (env : Env) (r : Req) (hv : ValidReq r) : ReqOk d env r :=
+  fun t0 t lo now => request_never_panics d env r hv t0 t lo now
+
+/-- what a run must respect: submitted requests passed the front ends' validation; the clock given to ticks does not
+    step back (a clock stepping back trips elapsed-time assertions: DESIGN observation O3); a thread id started by a
+    tick is not in use (the model names submissions by thread id + sequence number where Go uses closures); a router /
+    sender completion is one of that subsystem.  Decidable: the model driver evaluates it at every step of every
+    script of the correspondence harness. -/
+def StepOkV (clk : Time) (s : Sys) : Choice → Prop
+  | .submit _ r => ValidReq r
+  | .tick t => TickOk clk s t
+  | .complete id c => ∀ e ∈ s.pending, e.1 = id → KindOk e.2 c
+  | _ => True
+
+def RunOkV : Time → Sys → List Choice → Prop
+  | _, _, [] => True
+  | clk, s, c :: cs => StepOkV clk s c ∧ RunOkV (clkAfter clk c) (s.step c).1 cs
+
+instance (s : Subm) (c : Cpl) : Decidable (KindOk s c) := by
+  cases s <;> cases c <;> simp only [KindOk] <;> exact inferInstance
+
+instance (clk : Time) (s : Sys) (t : Time) : Decidable (TickOk clk s t) := by
+  unfold TickOk TidsDistinct; exact inferInstance
+
+instance (clk : Time) (s : Sys) (c : Choice) : Decidable (StepOkV clk s c) := by
+  cases c <;> simp only [StepOkV] <;> exact inferInstance
+
+/-- executable form of `RunOkV` -/
+def runOkB : Time → Sys → List Choice → Bool
+  | _, _, [] => true
+  | clk, s, c :: cs => decide (StepOkV clk s c) && runOkB (clkAfter clk c) (s.step c).1 cs
+
+theorem runOkB_sound : ∀ (cs : List Choice) (clk : Time) (s : Sys), runOkB clk s cs = true → RunOkV clk s cs := by
+  intro cs
+  induction cs with
+  | nil => intro _ _ _; trivial
+  | cons c cs ih =>
+    intro clk s h
+    simp only [runOkB, Bool.and_eq_true, decide_eq_true_eq] at h
+    exact ⟨h.1, ih _ _ h.2⟩
+
+theorem runOkV_runOk (d : Dialect) : ∀ (cs : List Choice) (clk : Time) (s : Sys), RunOkV clk s cs → RunOk d clk s cs := by
+  intro cs
+  induction cs with
+  | nil => intro _ _ _; trivial
+  | cons c cs ih =>
+    intro clk s h
+    refine ⟨?_, ih _ _ h.2⟩
+    have h1 := h.1
+    cases c with
+    | submit tid r => exact reqOk d s.env r h1
+    | tick t => exact h1
+    | complete id cp => exact h1
+    | execStore items => trivial
+    | shutdown => trivial
+    | crash => trivial
+
+/-- **the server never asserts.** From a freshly booted server over any database with unique keys: along every run
+    that respects `RunOkV`, no assertion event — no `util.Assert` / nil-dereference site of any of the 22 coroutines, no
+    request coroutine finishing without a response — is ever emitted. -/
+theorem server_never_asserts (d : Dialect) (env : Env) (db : Db) (hk : KeysX db) (clk : Time) (cs : List Choice)
+    (hok : RunOkV clk (Sys.boot env d (defs d) db) cs) :
+    ∀ e ∈ (Sys.boot env d (defs d) db).runEvents cs, ∀ tid site, e ≠ .panic tid site := by
+  intro e he tid site heq
+  have := (run_no_assert d cs _ clk (bgOk d env) (kinv_boot d env db clk hk) (runOkV_runOk d cs clk _ hok)).1 e he
+  rw [heq] at this
+  cases this
+
+/-- … and the key invariants the assertions rely on hold in every state such a run reaches: promise, schedule, lock and
+    task ids are unique, promise states legal, every invocation task has its promise. -/
+theorem reachable_keys (d : Dialect) (env : Env) (db : Db) (hk : KeysX db) (clk : Time) (cs : List Choice)
+    (hok : RunOkV clk (Sys.boot env d (defs d) db) cs) : KeysX ((Sys.boot env d (defs d) db).run cs).db := by
+  obtain ⟨_, clk', h⟩ := run_no_assert d cs _ clk (bgOk d env) (kinv_boot d env db clk hk) (runOkV_runOk d cs clk _ hok)
+  exact h.keys
+
+/-- the hypotheses are met by ordinary runs (a test, not the theorem): a create with its router and store
+    completions, a crash, a retry whose read fails after processing, another retry — `RunOkV` holds and responses are produced -/
+def demoEnv : Env := defaultEnv { url := "http://r", coroutineMaxSize := 10, taskEnqueueDelay := 1000 }
+def demoCreate : Req := .createPromise { id := "p", idempotencyKey := some "k", strict := false, param := {}, timeout := 5000, tags := [] }
+def demoRun : List Choice :=
+  [.submit "r1" demoCreate, .tick 10, .execStore [(⟨"r1", 0⟩, .ok)], .tick 11, .complete ⟨"r1", 1⟩ (.router false ""), .tick 12,
+   .execStore [(⟨"r1", 2⟩, .ok)], .tick 13, .crash,
+   .submit "r2" demoCreate, .tick 14, .execStore [(⟨"r2", 0⟩, .after)], .tick 15,
+   .submit "r3" demoCreate, .tick 16, .execStore [(⟨"r3", 0⟩, .ok)], .tick 17]
+#guard runOkB 0 (Sys.boot demoEnv .sqlite (defs .sqlite) {}) demoRun
+#guard ((Sys.boot demoEnv .sqlite (defs .sqlite) {}).runEvents demoRun).any (fun e => match e with | .respond _ _ => true | _ => false)
 
 /-- an invalid request is exactly one the theorem excludes — e.g. an empty search pattern reaches the kernel's assertion
     in the model as in the code, which is why the front ends must (and do, frontdiff) refuse it -/
